@@ -2,10 +2,13 @@
     reordering. The abstract swarm: local writes ([EWrite]), arrival of an earlier accepted entry at
     any replica any number of times in any order ([EPut]: broadcast delivery, or one value moved by
     an aborted session), complete sessions ([ESync]: both ends = join, the specification of C01).
-    PARTIAL: iroh-gossip, QUIC and task scheduling are abstracted as arbitrary delivery; the
-    complete-session step uses C01's specification (whose completeness half is checked by
-    correspondence, not yet proved). *)
-From ID Require Import Model.Put Proofs.SwarmFacts.
+    PARTIAL: iroh-gossip, QUIC and task scheduling are abstracted as arbitrary delivery.
+    The complete-session step is not an assumption any more: [C04_real_swarm_converges] is the
+    convergence theorem for the swarm whose replicas are sorted lists, whose writes go through the
+    ordered-map insert and whose sessions are runs of the reconciliation protocol itself
+    ([list_session], split factor 2) — proved by showing that swarm set-equal, replica by replica
+    and step by step, to the abstract one (C01's theorem at every [ESync]). *)
+From ID Require Import Base.Bytes Model.Entry Model.Put Model.Ranger Proofs.SwarmFacts Proofs.RealSwarm.
 
 (** no replica ever holds an entry that was not written (and accepted) by some replica; every
     accepted write stays present-or-dominated somewhere — for every interleaving *)
@@ -34,6 +37,31 @@ Theorem C04_swarm_converges : forall s0 W pairs,
     forall x, In x (sget (fst (sync_all (s0, W) pairs)) k) <-> in_reduce W x.
 Proof. exact swarm_converges. Qed.
 
+(** the same with real sessions: after any history of writes, deliveries (lost, duplicated,
+    reordered) and protocol sessions, a closing list of protocol sessions through which replica
+    [k] hears of everybody leaves it with exactly the merge of all accepted writes *)
+Theorem C04_real_swarm_converges : forall mss v U, consistent U -> (forall e, In e U -> v e MISSING = true) ->
+  forall n evs pairs,
+    writes_in U evs -> legal [] (repeat [] n) evs ->
+    Forall (fun p => fst p < n /\ snd p < n)%nat pairs ->
+    let st1 := rrun mss v (@pair swarm (list entry) (repeat [] n) []) evs in
+    let st2 := rrun mss v st1 (map (fun p => ESync (fst p) (snd p)) pairs) in
+    forall k, (k < n)%nat -> (forall q, (q < n)%nat -> In q (fold_left kstep pairs kinit k)) ->
+    forall x, In x (sget (fst st2) k) <-> in_reduce (snd st1) x.
+Proof. exact real_swarm_converges. Qed.
+
+(** a concrete real swarm: three replicas, writes with a prefix deletion and an overwrite, a lost
+    and a duplicated delivery, a mid-history session, then the sweep: all three hold the merge *)
+Example C04_real_swarm_example :
+  let w1 := mkE 1 2 [97; 98] 5 1 8 in let w2 := mkE 1 2 [97] 9 0 0 in
+  let w3 := mkE 1 3 [99] 5 1 8 in let w4 := mkE 1 3 [99] 7 1 9 in
+  let evs := [EWrite 0 w1; EWrite 1 w3; EPut 2 w1; EPut 2 w1; ESync 0 1; EWrite 2 w2; EWrite 0 w4]%nat in
+  let pairs := [(2, 1); (1, 0); (0, 1); (1, 2)]%nat in
+  let st1 := rrun 1 (fun _ _ => true) (@pair swarm (list entry) (repeat [] 3) []) evs in
+  let st2 := rrun 1 (fun _ _ => true) st1 (map (fun p => ESync (fst p) (snd p)) pairs) in
+  fst st2 = [[w2; w4]; [w2; w4]; [w2; w4]] /\ length (snd st1) = 4%nat.
+Proof. vm_compute. split; reflexivity. Qed.
+
 (** the premise is satisfiable: an up-then-down sweep of a three-replica path *)
 Example C04_sweep_knowledge_path3 :
   let pairs := [(2, 1); (1, 0); (0, 1); (1, 2)]%nat in
@@ -43,4 +71,6 @@ Proof. exact sweep_knowledge_path3. Qed.
 Print Assumptions C04_swarm_invariant.
 Print Assumptions C04_closing_knowledge.
 Print Assumptions C04_swarm_converges.
+Print Assumptions C04_real_swarm_converges.
+Print Assumptions C04_real_swarm_example.
 Print Assumptions C04_sweep_knowledge_path3.
